@@ -5,11 +5,29 @@
    between markers, hence hidden entirely by Redact().  These are the two facts
    every PII-free output of the library rests on (all of them are produced by
    Redact() of a redactable rendering).  The non-interference theorem through the
-   whole formatting engine, and arbitrary byte contents (marker bytes, invalid
-   UTF-8, newlines inside arguments), are decided on every run by the
-   correspondence stream on hostile strings and the token search on the
-   implementation; their proof is listed as missing in the evidence. *)
-From Errv Require Import Base.Str Redact.Markers Redact.Buffer Proofs.RedactFacts.
+   whole formatting engine (the engine's own line splitting and entry layout
+   around the printed pieces) is decided on every run by the correspondence
+   stream on hostile strings and the token search on the implementation; its
+   proof is listed as missing in the evidence.  At the level of one printf call
+   the non-interference theorem is proved for ARBITRARY bytes (below). *)
+From Errv Require Import Base.Str Redact.Markers Redact.Buffer Proofs.RedactFacts Proofs.RedactWf.
+
+(* ---- non-interference for ARBITRARY BYTES (Proofs/RedactWf.v): what Redact()
+   leaves of a printf call does not depend on the content of an unsafe argument,
+   only on its line shape (which lines are empty) -- whatever the other pieces
+   are (literals, safe / unsafe arguments with any bytes, nested printer outputs) ---- *)
+Theorem C03_printf_noninterference : forall pre post s1 s2,
+  pieces_ok pre -> pieces_ok post ->
+  List.map is_empty (split_on nl s1) = List.map is_empty (split_on nl s2) ->
+  redact (sprint_pieces (pre ++ PUnsafe s1 :: post)) = redact (sprint_pieces (pre ++ PUnsafe s2 :: post)).
+Proof. exact redact_pieces_ni. Qed.
+Print Assumptions C03_printf_noninterference.
+
+Theorem C03_unsafe_arg_noninterference : forall s1 s2,
+  List.map is_empty (split_on nl s1) = List.map is_empty (split_on nl s2) ->
+  redact (sprint_pieces [PUnsafe s1]) = redact (sprint_pieces [PUnsafe s2]).
+Proof. exact redact_unsafe_shape. Qed.
+Print Assumptions C03_unsafe_arg_noninterference.
 
 Theorem C03_redact_hides_region : forall bs rest,
   no_e2 bs = true -> redact (m_start ++ bs ++ m_end ++ rest) = m_redacted ++ redact rest.
